@@ -166,6 +166,16 @@ func pdfCodewordBounds(p []byte) (lo, hi int) {
 		return (n + 1) / 2, (n + 1) / 2
 	case homogeneous(p, func(c byte) bool { return c == ' ' || (c >= 'a' && c <= 'z') }):
 		return (n + 2) / 2, (n + 2) / 2 // one latch value (27) to the lower sub-mode, then one value each
+	case pdfTextThenDigits(p) > 0:
+		// at least five upper-case characters (a text segment of its own), then a run of at least 13 digits (numeric
+		// compaction after the 902 latch): the commonest shape of real content ("LOT 1234567890123")
+		k := pdfTextThenDigits(p)
+		d := n - k
+		m := (k+1)/2 + 1 + d/44*15
+		if r := d % 44; r > 0 {
+			m += r/3 + 1
+		}
+		return m, m
 	case homogeneous(p, func(c byte) bool { return c >= 128 }) && !utf8.Valid(p) && allInvalid(p):
 		if n == 1 {
 			return 2, 2
@@ -174,6 +184,23 @@ func pdfCodewordBounds(p []byte) (lo, hi int) {
 		return m, m
 	}
 	return (n*15 + 43) / 44, 2*n + 4
+}
+
+// pdfTextThenDigits returns k if p is k >= 5 upper-case letters/blanks followed by at least 13 digits and nothing else, else 0.
+func pdfTextThenDigits(p []byte) int {
+	k := 0
+	for k < len(p) && (p[k] == ' ' || (p[k] >= 'A' && p[k] <= 'Z')) {
+		k++
+	}
+	if k < 5 || len(p)-k < 13 {
+		return 0
+	}
+	for _, c := range p[k:] {
+		if c < '0' || c > '9' {
+			return 0
+		}
+	}
+	return k
 }
 
 // allInvalid: every byte is an invalid UTF-8 sequence on its own (so that rune- and byte-wise
@@ -544,6 +571,23 @@ func TestC10Boundaries(t *testing.T) {
 			n = (budget-1)/5*6 + d
 			if n > 0 {
 				add(EncSpec{Fam: "pdf417", Content: BStr(strings.Repeat("\xfe", n)), A: l})
+			}
+		}
+		// a short text segment followed by digits, sized to exactly the budget, one below and one above
+		if l <= 8 {
+			for _, k := range []int{5, 6, 7, 9, 12} {
+				for _, want := range []int{budget, budget - 1, budget - 3, budget + 1} {
+					for d := 13; d < 2750; d++ {
+						m := (k+1)/2 + 1 + d/44*15
+						if r := d % 44; r > 0 {
+							m += r/3 + 1
+						}
+						if m == want {
+							add(EncSpec{Fam: "pdf417", Content: BStr(strings.Repeat("ABCDEFGH LOT ", 1)[:k] + strings.Repeat("1234567890", d/10+1)[:d]), A: l})
+							break
+						}
+					}
+				}
 			}
 		}
 		// every homogeneous class at 30..97% of the capacity (limits that are right for one class, wrong for another)
